@@ -48,7 +48,8 @@
      * WriteValue to an "eof" channel (a port made by `<`, or the caller's input port): the reference
        only says what such a channel does when READ; raise (primary) or silently drop are accepted --
        a fault is not.
-     * WriteValue to the form's own input pipe (after n>&0 in a piped form): buffered or raised.
+     * WriteValue to the form's own input pipe (after n>&0 in a piped form): the result depends on
+       whether the producer has already closed the channel (result "skip": not executed in G, any result in V).
      * polling the value channel of anything but an "eof" channel (result "skip": not executed).
      * very large non-negative destinations (the table grows; the generator stays <= 64).
    The form's own head is the harness command vw:do (never raises) or, in V, a real builtin
@@ -148,7 +149,7 @@ DoOp(s, o) ==
     [] o.t = "v" ->
          IF p.c = "cap" THEN [Log(s, "ok", "", <<>>) EXCEPT !.caps[p.id].v = Append(@, o.n)]
          ELSE IF p.c = "nov" THEN Log(s, "err", "", <<>>)
-         ELSE IF p.c = "pipech" THEN Log(s, "ok", "err", <<>>)   \* the form's own input pipe: Unspecified (buffered or raise)
+         ELSE IF p.c = "pipech" THEN Log(s, "skip", "", <<>>)    \* the form's own input pipe: Unspecified, depends on whether the producer has closed the channel yet
          ELSE Log(s, "err", "ok", <<>>)   \* "eof" channel: Unspecified (raise or drop)
     [] o.t = "r" ->
          IF p.f = "rnull" THEN Log(s, "ok", "", <<>>)
